@@ -1223,6 +1223,16 @@ Proof.
   apply (rstep_refines n d _ _ op N LE Hop).
 Qed.
 
+(* the theorems of RolesProofs.v about the link set transfer to the structure, e.g. HasLink after
+   any history = reachability within n edges among the links the history leaves listed *)
+Theorem structure_has_link_bounded_reachability n d ops u r : Forall plain_rop ops ->
+  (snd (has_link mf n (rrun mf n (new_rm false) ops) u r) = true <->
+   exists k, k <= n /\ walk (arun n d [] ops) d u r k).
+Proof.
+  intros HF. destruct (rrun_refines n d ops (new_rm false) [] NoMF_new (links_equiv_refl _) HF) as [N LE].
+  rewrite (has_link_refines n d _ u r N), (has_link_equiv n _ _ u r d LE). apply has_link_iff_walk.
+Qed.
+
 Theorem rrun_WF n ops : Forall plain_rop ops -> WF (rrun mf n (new_rm false) ops).
 Proof.
   intros HF. apply (proj1 (proj1 (rrun_refines n EmptyString ops (new_rm false) [] NoMF_new (links_equiv_refl _) HF))).
@@ -2028,6 +2038,113 @@ Proof.
     eapply pwalk_equiv; [intros a c; symmetry; apply L2|intros a; symmetry; apply HN|exact Hw].
 Qed.
 
+(* ---------- GetRoles / GetUsers with a matching function (membership) ---------- *)
+Lemma pedge_equiv L N L' N' b x y : (forall a c, In (a, c) L <-> In (a, c) L') -> (forall a, In a N <-> In a N') ->
+  pedge L N b x y -> pedge L' N' b x y.
+Proof.
+  intros HL HN [H|[[Hb [w [H1 [H2 [H3 H4]]]]]|[Hb [p [H1 [H2 [H3 H4]]]]]]].
+  - left. apply HL. exact H.
+  - right. left. split; [exact Hb|]. exists w. rewrite <- HL, <- HN. auto.
+  - right. right. split; [exact Hb|]. exists p. rewrite <- HL, <- HN. auto.
+Qed.
+
+Lemma get_role_names s name s1 i c a : WFs s -> get_role mf s name = (s1, i, c) ->
+  (In a (map fst (m_all s1)) <-> In a (name :: map fst (m_all s))).
+Proof.
+  intros W E. destruct (get_role_WFs _ _ _ _ _ W E) as [_ [Hi _]]. cbn [In]. rewrite !keys_regd. split.
+  - intros [j H]. apply (get_role_regd _ _ _ _ _ a j W E) in H. destruct H as [H|[_ [-> _]]]; [right; eauto|auto].
+  - intros [<-|[j H]]; [eauto|]. exists j. apply (get_role_regd _ _ _ _ _ a j W E). auto.
+Qed.
+
+(* GetRoles(u) lists exactly the one-step successors of u in the closure graph *)
+Theorem get_roles_pattern_spec s u x : WF s ->
+  (In x (snd (get_roles mf s u)) <-> pedge (links_of s) (u :: map fst (m_all s)) (m_mf s) u x).
+Proof.
+  intros W. unfold get_roles. destruct (get_role mf s u) as [[s1 i] c] eqn:E1. cbn [snd].
+  destruct (get_role_WF Pany GRM_any _ _ _ _ _ W Logic.I E1) as [W1 [H1 [M1 _]]].
+  destruct (ws_obj _ (proj1 W1) _ _ H1) as [o [G _]]. rewrite (obj_of_get _ _ _ G).
+  unfold role_get_roles. rewrite nub_In, <- (sedge_iff _ _ _ _ x (proj1 W1) H1 G), (sedge_spec s1 u i x W1 H1), M1.
+  split; apply pedge_equiv; intros.
+  - apply (get_role_links _ _ _ _ _ _ _ (proj1 W) E1).
+  - apply (get_role_names _ _ _ _ _ _ (proj1 W) E1).
+  - symmetry. apply (get_role_links _ _ _ _ _ _ _ (proj1 W) E1).
+  - symmetry. apply (get_role_names _ _ _ _ _ _ (proj1 W) E1).
+Qed.
+
+Lemma users_key_link s r i o x : WFs s -> regd s r i -> hget i (m_heap s) = Some o ->
+  (In x (map fst (o_users o)) <-> In (x, r) (links_of s)).
+Proof.
+  intros W H G. rewrite (links_of_In _ _ _ W). split.
+  - intros HI. apply in_map_iff in HI as [[x' j] [Ex HI]]. cbn [fst] in Ex. subst x'.
+    destruct (ws_users _ W _ _ _ _ _ H G HI) as [R [oj [Gj Hj]]]. exists j, oj.
+    split; [exact R|split; [exact Gj|eapply In_keys; eauto]].
+  - intros [j [oj [R [Gj HI]]]]. apply in_map_iff in HI as [[r' i'] [Er HI]]. cbn [fst] in Er. subst r'.
+    destruct (ws_roles _ W _ _ _ _ _ R Gj HI) as [R' [o' [G' H']]].
+    assert (i' = i) by (eapply regd_fun; eauto). subst i'. rewrite G in G'. inversion G'. subst o'. eapply In_keys; eauto.
+Qed.
+
+(* the predecessors rangeUsers enumerates: a stored link into r, or a registered name matching a
+   pattern that has r, or a member of a pattern that r matches *)
+Definition uedge (L : list (string * string)) (N : list string) (b : bool) (r x : string) : Prop :=
+  In (x, r) L \/
+  (b = true /\ exists w, In (w, r) L /\ In x N /\ x <> w /\ mf x w = true) \/
+  (b = true /\ exists p, In p N /\ p <> r /\ mf r p = true /\ In (x, p) L).
+Lemma uedge_equiv L N L' N' b r x : (forall a c, In (a, c) L <-> In (a, c) L') -> (forall a, In a N <-> In a N') ->
+  uedge L N b r x -> uedge L' N' b r x.
+Proof.
+  intros HL HN [H|[[Hb [w [H1 [H2 [H3 H4]]]]]|[Hb [p [H1 [H2 [H3 H4]]]]]]].
+  - left. apply HL. exact H.
+  - right. left. split; [exact Hb|]. exists w. rewrite <- HL, <- HN. auto.
+  - right. right. split; [exact Hb|]. exists p. rewrite <- HL, <- HN. auto.
+Qed.
+
+Lemma range_users_spec s r i o x : WF s -> regd s r i -> hget i (m_heap s) = Some o ->
+  (In x (map fst (range_users (m_heap s) o)) <-> uedge (links_of s) (map fst (m_all s)) (m_mf s) r x).
+Proof.
+  intros [W Wm] H G. unfold range_users, uedge. rewrite !map_app, !in_app_iff.
+  rewrite (users_key_link _ _ _ _ x W H G).
+  assert (E2 : In x (map fst (flat_map (fun p => o_matched (obj_of (m_heap s) (snd p))) (o_users o))) <->
+               (m_mf s = true /\ exists w, In (w, r) (links_of s) /\ In x (map fst (m_all s)) /\ x <> w /\ mf x w = true)).
+  { rewrite in_map_iff. split.
+    - intros [[x' v] [Ex HI]]. cbn [fst] in Ex. subst x'. apply in_flat_map in HI as [[w j1] [H1 H2]]. cbn [snd] in H2.
+      destruct (ws_users _ W _ _ _ _ _ H G H1) as [R1 _]. destruct (ws_obj _ W _ _ R1) as [o1 [G1 _]].
+      rewrite (obj_of_get _ _ _ G1) in H2. destruct (Wm _ _ _ R1 G1) as [_ [_ [M _]]]. apply M in H2 as [Rx [Nx [Hm F]]].
+      split; [exact Hm|]. exists w. split; [apply (users_key_link _ _ _ _ w W H G); eapply In_keys; eauto|].
+      split; [apply keys_regd; eauto|auto].
+    - intros [Hm [w [Hl [Hx [Nx F]]]]]. apply (users_key_link _ _ _ _ w W H G) in Hl.
+      apply in_map_iff in Hl as [[w' j1] [Ew H1]]. cbn [fst] in Ew. subst w'.
+      destruct (ws_users _ W _ _ _ _ _ H G H1) as [R1 _]. destruct (ws_obj _ W _ _ R1) as [o1 [G1 _]].
+      apply keys_regd in Hx as [v Rx]. exists (x, v). split; [reflexivity|]. apply in_flat_map. exists (w, j1).
+      split; [exact H1|]. cbn [snd]. rewrite (obj_of_get _ _ _ G1). destruct (Wm _ _ _ R1 G1) as [_ [_ [M _]]]. apply M. auto. }
+  assert (E3 : In x (map fst (flat_map (fun p => o_users (obj_of (m_heap s) (snd p))) (o_matchedBy o))) <->
+               (m_mf s = true /\ exists p, In p (map fst (m_all s)) /\ p <> r /\ mf r p = true /\ In (x, p) (links_of s))).
+  { destruct (Wm _ _ _ H G) as [_ [_ [_ M]]]. rewrite in_map_iff. split.
+    - intros [[x' v] [Ex HI]]. cbn [fst] in Ex. subst x'. apply in_flat_map in HI as [[p j1] [H1 H2]]. cbn [snd] in H2.
+      apply M in H1 as [R1 [Np [Hm F]]]. destruct (ws_obj _ W _ _ R1) as [o1 [G1 _]].
+      rewrite (obj_of_get _ _ _ G1) in H2. split; [exact Hm|]. exists p. split; [apply keys_regd; eauto|].
+      split; [exact Np|split; [exact F|]]. apply (users_key_link _ _ _ _ x W R1 G1). eapply In_keys; eauto.
+    - intros [Hm [p [Hp [Np [F Hl]]]]]. apply keys_regd in Hp as [j1 R1]. destruct (ws_obj _ W _ _ R1) as [o1 [G1 _]].
+      apply (users_key_link _ _ _ _ x W R1 G1) in Hl. apply in_map_iff in Hl as [[x' v] [Ex H2]]. cbn [fst] in Ex. subst x'.
+      exists (x, v). split; [reflexivity|]. apply in_flat_map. exists (p, j1). split; [apply M; auto|].
+      cbn [snd]. rewrite (obj_of_get _ _ _ G1). exact H2. }
+  rewrite E2, E3. tauto.
+Qed.
+
+(* GetUsers(r) lists (possibly with repetitions) exactly the one-step predecessors of r *)
+Theorem get_users_pattern_spec s r x : WF s ->
+  (In x (snd (get_users mf s r)) <-> uedge (links_of s) (r :: map fst (m_all s)) (m_mf s) r x).
+Proof.
+  intros W. unfold get_users. destruct (get_role mf s r) as [[s1 i] c] eqn:E1. cbn [snd].
+  destruct (get_role_WF Pany GRM_any _ _ _ _ _ W Logic.I E1) as [W1 [H1 [M1 _]]].
+  destruct (ws_obj _ (proj1 W1) _ _ H1) as [o [G _]]. rewrite (obj_of_get _ _ _ G).
+  unfold role_get_users. rewrite (range_users_spec s1 r i o x W1 H1 G), M1.
+  split; apply uedge_equiv; intros.
+  - apply (get_role_links _ _ _ _ _ _ _ (proj1 W) E1).
+  - apply (get_role_names _ _ _ _ _ _ (proj1 W) E1).
+  - symmetry. apply (get_role_links _ _ _ _ _ _ _ (proj1 W) E1).
+  - symmetry. apply (get_role_names _ _ _ _ _ _ (proj1 W) E1).
+Qed.
+
 (* ---------- when the answer is a function of the stored links alone ---------- *)
 Definition link_names (L : list (string * string)) : list string := flat_map (fun l => [fst l; snd l]) L.
 Lemma link_names_In L k : In k (link_names L) <-> exists x y, In (x, y) L /\ (k = x \/ k = y).
@@ -2145,7 +2262,7 @@ Record DWF (dm : dmgr) : Prop := mkDWF {
   dw_rm : forall d rm, In (d, rm) (d_rms dm) -> WF rm /\ m_mf rm = d_mf dm }.
 
 Lemma DWF_new : DWF new_dm.
-Proof. constructor; cbn; [constructor|tauto]. Qed.
+Proof. constructor; cbn; [constructor|intros d rm []]. Qed.
 
 Lemma DWF_upd dm d rm : DWF dm -> WF rm -> m_mf rm = d_mf dm -> DWF (set_rms dm (mput d rm (d_rms dm))).
 Proof.
